@@ -162,7 +162,7 @@ enum Case {
 	Eq { sr: u32, kind: EqFilterKind, frequency: f64, gain_db: f32, q: f64, probe: f64, prior: Option<u32> },
 	Delay { sr: u32, ibs: usize, time_s: f64, feedback_db: f32, mix: f32, inner: Vec<Inner>, n: usize, amp: f32 },
 	Reverb { sr: u32, feedback: f64, damping: f64, width: f64, mix: f32, n: usize },
-	Compressor { sr: u32, threshold: f64, ratio: f64, attack_s: f64, release_s: f64, level_db: f64 },
+	Compressor { sr: u32, threshold: f64, ratio: f64, attack_s: f64, release_s: f64, level_db: f64, layout: u8 },
 	Distortion { kind: DistortionKind, drive_db: f32, x: f32 },
 	VolumePan { db: f32, pan: f32, x: (f32, f32) },
 	FilterSamples { sr: u32, mode: FilterMode, cutoff: f64, resonance: f64, n: usize },
@@ -407,26 +407,47 @@ fn run_one(c: &Case) -> Result<(), Failure> {
 				ensure!(late <= early * 1.02 + 1e-9, "reverb-decays", "reverb tail grows: rms {early:e} in frames {win}..{} after the input ends, {late:e} in the following {win} (feedback {feedback:.3})", 2 * win);
 			}
 		}
-		Case::Compressor { sr, threshold, ratio, attack_s, release_s, level_db } => {
+		Case::Compressor { sr, threshold, ratio, attack_s, release_s, level_db, layout } => {
 			let spec = FxSpec::Compressor { threshold: *threshold, ratio: *ratio, attack_s: *attack_s, release_s: *release_s, makeup_db: 0.0, mix: 1.0 };
 			let a = 10f64.powf(level_db / 20.0) as f32;
+			// the signal sits on both channels (opposite signs), on the left only, or on the right only:
+			// each channel is compressed on its own
+			let frame = |x: f32| match layout {
+				0 => Frame::new(x, -x),
+				1 => Frame::new(x, 0.0),
+				_ => Frame::new(0.0, -x),
+			};
+			let pick = |f: &Frame| if *layout == 2 { -f.right as f64 } else { f.left as f64 };
 			// a constant level: long enough for the envelope to settle
 			let settle = ((attack_s.max(*release_s) * 12.0 * *sr as f64) as usize).clamp(256, 400_000);
-			let input = vec![Frame::new(a, -a); settle];
-			let out = run_effect(&spec, *sr, 512, &input, &whole(settle, 512), &info);
-			let last = out[settle - 1].left as f64;
+			let input = vec![frame(a); settle];
+			let (mut fx, _h) = crate::scene::fx::build(&spec);
+			fx.init(*sr, 512);
+			let out = super::c13::process_with(&mut fx, *sr, &input, &whole(settle, 512), &info);
+			let last = pick(&out[settle - 1]);
 			if *level_db <= *threshold {
 				ensure!(out.iter().zip(input.iter()).all(|(o, i)| o == i), "compressor-transparent-below-threshold", "a signal at {level_db:.2} dB is changed by a compressor with threshold {threshold:.2} dB: {:?} -> {:?}", input[settle - 1], out[settle - 1]);
 			} else {
 				let reduction = db(a as f64) - db(last);
 				let want = (level_db - threshold) * (1.0 - 1.0 / ratio);
-				ensure!((reduction - want).abs() <= 0.05 + 0.002 * want.abs(), "compressor-steady-state-gain-reduction", "level {level_db:.2} dB, threshold {threshold:.2} dB, ratio {ratio:.3}: gain reduction settles at {reduction:.4} dB, expected (level - threshold)(1 - 1/ratio) = {want:.4} dB");
+				ensure!((reduction - want).abs() <= 0.05 + 0.002 * want.abs(), "compressor-steady-state-gain-reduction", "level {level_db:.2} dB, threshold {threshold:.2} dB, ratio {ratio:.3} (channel layout {layout}): gain reduction settles at {reduction:.4} dB, expected (level - threshold)(1 - 1/ratio) = {want:.4} dB");
+				// release time constant: the level drops below the threshold; after release_s the
+				// reduction has fallen to 1/e of what it was
+				if *release_s * *sr as f64 > 50.0 && reduction.abs() > 0.5 {
+					let k = (*release_s * *sr as f64).round() as usize;
+					let low = 10f64.powf((threshold - 20.0) / 20.0) as f32;
+					let tail = vec![frame(low); k + 1];
+					let out2 = super::c13::process_with(&mut fx, *sr, &tail, &whole(k + 1, 512), &info);
+					let r_k = db(low as f64) - db(pick(&out2[k - 1]));
+					let frac = r_k / reduction;
+					ensure!((frac - (-1.0f64).exp()).abs() <= 0.02, "compressor-release-time-constant", "one release time ({release_s:.5} s) after the level fell below the threshold the gain reduction is at {:.2}% of what it was, expected 36.8% (channel layout {layout}, attack {attack_s:.5} s)", frac * 100.0);
+				}
 				// attack time constant: the reduction reaches 1 - 1/e of its final value after attack_s
 				// (only where there is a reduction to take a fraction of)
 				if *attack_s * *sr as f64 > 50.0 && reduction.abs() > 0.5 {
 					let k = (*attack_s * *sr as f64).round() as usize;
 					if k < settle {
-						let r_k = db(a as f64) - db(out[k - 1].left as f64);
+						let r_k = db(a as f64) - db(pick(&out[k - 1]));
 						let frac = r_k / reduction;
 						ensure!((frac - (1.0 - (-1.0f64).exp())).abs() <= 0.02, "compressor-attack-time-constant", "after the attack time ({attack_s:.5} s) the gain reduction is at {:.2}% of its final value, expected 63.2%", frac * 100.0);
 					}
@@ -552,6 +573,7 @@ fn decode(src: &mut Src, tier: Tier) -> Case {
 				attack_s: src.f64_log(0.0005, 0.02),
 				release_s: src.f64_log(0.001, 0.05),
 				level_db: threshold + src.f64_uniform(-12.0, 24.0),
+				layout: src.weighted(&[2, 1, 1]) as u8,
 			}
 		}
 		6 => Case::Distortion {
@@ -575,7 +597,7 @@ impl Property for C14 {
 		"C14"
 	}
 	fn rule(&self) -> &'static str {
-		"each case builds one effect through its public builder with generated parameters and a sample rate 8k..192k and compares it with an independent reference: filter (4 modes) and EQ (3 kinds): sine gain measured at a probe frequency within two octaves of the corner against the analytic magnitude of the cited state-variable design (0.1 dB + 5e-4/g dB, g = tan(pi corner / rate)), corner / centre / shelf landmarks - in a quarter of the cases on an effect instance that first ran at another device rate and was then told the new one -, and sample-by-sample agreement of the filter with an f64 implementation of the cited algorithm on noise; delay: impulse trains against a reference delay line with floor(time x rate) frames, feedback gain applied once per round trip after the feedback effects (volume, hard / soft clip), sqrt mix law (1e-5 per frame); reverb: sample-by-sample against an f64 Freeverb network (8 combs + 4 all-passes per channel, tunings x rate/44100, spread 23, input gain 0.015) and a decaying tail for feedback < 1; compressor: unchanged below threshold, steady-state reduction (level - threshold)(1 - 1/ratio) dB (0.05 dB) and 63.2% of it after the attack time (2%); distortion: clamp(x d)/d and x d/(1+|x d|)/d, transparent for small signals; volume / panning control: decibel and equal-power laws. Non-trivial = parameters differ from the builder defaults (always, by generation) and the probe lies within two octaves of the corner; distinct = distinct decoded choices."
+		"each case builds one effect through its public builder with generated parameters and a sample rate 8k..192k and compares it with an independent reference: filter (4 modes) and EQ (3 kinds): sine gain measured at a probe frequency within two octaves of the corner against the analytic magnitude of the cited state-variable design (0.1 dB + 5e-4/g dB, g = tan(pi corner / rate)), corner / centre / shelf landmarks - in a quarter of the cases on an effect instance that first ran at another device rate and was then told the new one -, and sample-by-sample agreement of the filter with an f64 implementation of the cited algorithm on noise; delay: impulse trains against a reference delay line with floor(time x rate) frames, feedback gain applied once per round trip after the feedback effects (volume, hard / soft clip), sqrt mix law (1e-5 per frame); reverb: sample-by-sample against an f64 Freeverb network (8 combs + 4 all-passes per channel, tunings x rate/44100, spread 23, input gain 0.015) and a decaying tail for feedback < 1; compressor: unchanged below threshold, steady-state reduction (level - threshold)(1 - 1/ratio) dB (0.05 dB), 63.2% of it after the attack time and 36.8% one release time after the level falls below the threshold (2%), with the signal on both channels, the left only or the right only; distortion: clamp(x d)/d and x d/(1+|x d|)/d, transparent for small signals; volume / panning control: decibel and equal-power laws. Non-trivial = parameters differ from the builder defaults (always, by generation) and the probe lies within two octaves of the corner; distinct = distinct decoded choices."
 	}
 	fn assumptions(&self) -> Vec<String> {
 		vec![
